@@ -1907,10 +1907,27 @@ pub open spec fn qpart(s: ProtocolState, q: Seq<u64>, policy: OfflineQueuePolicy
 }
 
 impl ProtocolState {
-// (body is `queue.iter().filter(|id| ..).map(|id| ..)` handed to the function above: closure-capturing adapter chain, outside
-// Verus) -> assumed contract, examined by E-B
-//@fn gneiss-mqtt/src/protocol.rs ProtocolState::partition_operation_queue_by_queue_policy props=C15 stub
+// body: `queue.iter().filter(|id| ..).map(|id| ..)` handed to the function above -> rule D6 (eager evaluation of the adapter chain)
+//@fn gneiss-mqtt/src/protocol.rs ProtocolState::partition_operation_queue_by_queue_policy props=C15,C11 desugar
     ensures r.0@ == qpart(*self, queue@, *policy, true), r.1@ == qpart(*self, queue@, *policy, false),
+//@@loop 0 iter=it
+            invariant it.seq().unref() =~= queue@,
+                part_by_policy(verif_items@, *policy, true) == qpart(*self, queue@.take(it.index@ as int), *policy, true),
+                part_by_policy(verif_items@, *policy, false) == qpart(*self, queue@.take(it.index@ as int), *policy, false),
+//@@at before "let id = &verif_x;"
+            let ghost pre_items = verif_items@;
+            proof {
+                assert(it.seq().unref()[it.index@ as int] == *verif_x);
+                assert(queue@.take(it.index@ + 1).drop_last() =~= queue@.take(it.index@ as int));
+                assert(queue@.take(it.index@ + 1).last() == *verif_x);
+            }
+//@@at after "verif_items.push((*id, &*self.operations.get(id).unwrap().packet));"
+                proof {
+                    assert(verif_items@.drop_last() =~= pre_items);
+                    assert(verif_items@.last().0 == *verif_x && *verif_items@.last().1 == *self.operations@[*verif_x].packet);
+                }
+//@@at before "partition_operations_by_queue_policy((verif_items.into_iter()).into_iter(), policy)"
+        proof { assert(queue@.take(queue@.len() as int) =~= queue@); }
 //@end
 }
 
